@@ -33,7 +33,8 @@ EXTENDS FsBase
 CONSTANTS Conn,           \* {"c1", "c2"}
           ScriptsUsed,    \* BOOLEAN: two-statement scripts in the vocabulary
           TgtUsed,        \* subset of {"u", "S1", "S2"}: how DML names its table (unqualified / qualified)
-          Feat            \* subset of {"cur", "ddl", "dml2"}: open results / DDL on U / UPDATE, multi-row INSERT, DELETE of all rows
+          Feat            \* subset of {"cur", "ddl", "dml2", "persist"}: open results / DDL on U / UPDATE, multi-row INSERT, DELETE
+                          \* of all rows / the instance keeps its databases under a db_path and can be shut down and opened again
 
 AllDevs == {}
 Schemas == {"S1", "S2"}
@@ -130,6 +131,10 @@ Steps(st, op, D) ==
          LET n == IF op.how = "one" THEN 1 ELSE IF op.how = "many2" THEN 2 ELSE Len(x.rows)
              s2 == [st EXCEPT !.s[op.c].rows = Slice(x.rows, n + 1, Len(x.rows))] IN
          {R(s2, ObsGot(<<IF op.how = "one" /\ x.rows = <<>> THEN "none" ELSE "rows">>, Slice(x.rows, 1, n), s2))}
+    \* ---- C18: both connections are closed, the instance is shut down, a new instance is made on the same db_path and both
+    \* sessions connect again: everything committed is there, pending work is gone, the sessions are new ones
+    [] op.k = "restart" ->
+         LET s2 == [st EXCEPT !.s = [c \in Conn |-> Idle("S1", 0, FALSE, <<>>)]] IN {R(s2, Obs(<<"ok">>, s2))}
     [] op.k = "script" ->
          \* execute_string: the statements one by one, stopping at the first failure with the earlier ones applied
          LET a1 == Apply(st, op.c, op.items[1]) IN
@@ -188,12 +193,19 @@ Ops(st) ==
           THEN [k : {"sel"}, c : {c}, tgt : TgtUsed] \cup (IF st.s[c].open THEN [k : {"fetch"}, c : {c}, how : {"one", "many2", "all"}] ELSE {})
           ELSE {})
     : c \in Conn}
+  \cup (IF "persist" \in Feat THEN {[k |-> "restart", c |-> "c1"]} ELSE {})
 IsErr(r) == IsErrR(r.obs.res[Len(r.obs.res)])
 
 \* ---- the properties on the model (per step) ----
 ScriptTouches(op, kinds) == op.k = "script" /\ \E j \in 1..2 : op.items[j].k \in kinds
 StepOk(st, op, r) ==
   LET x == st.s[op.c]  y == r.post.s[op.c]  o == Other(op.c) IN
+  IF op.k = "restart"
+  THEN \* C18: what was committed is found unchanged, nothing else is; the sessions start afresh
+       /\ r.post.tab = st.tab /\ r.post.u = st.u
+       /\ \A c \in Conn : r.post.s[c] = Idle("S1", 0, FALSE, <<>>)
+       /\ \A c \in Conn, t \in Schemas : Visible(r.post, c, t) = st.tab[t]
+  ELSE
   \* C13 sticky / C03 / C15 per connection: nothing of the other connection's session changes
   /\ r.post.s[o] = st.s[o]
   \* C03: the current schema changes only by the connection's own USE
